@@ -1,5 +1,6 @@
 import BM.Proofs.Step
 import BM.Proofs.Escape
+import BM.Proofs.Bytes
 /-
   C05: script and style never survive unless AllowUnsafe(true).
 
@@ -76,5 +77,21 @@ example :
     let p : Policy := { initialized := true, elsAndAttrs := [(b!"script", []), (b!"b", [])],
                         setOfElementsAllowedWithoutAttrs := [b!"b", b!"script"] }
     p.sanitizeCore b!"<script/>ZQ1</script><b>k</b><SCRIPT>ZQ2</SCRIPT>" = b!"<b>k</b>" := by decide
+
+/-- **C05 (byte level)**: for a plain policy — even one that names script or style, or matches
+    them with a pattern — no token an HTML tokenizer finds in the returned bytes is a start,
+    end or self-closing tag named script or style. -/
+theorem C05_bytes (p : Policy) (hp : Plain p.ensureInit) (input : Bytes) :
+    ∀ k ∈ tokenize (p.sanitizeCore input), isTag k = true → isScriptOrStyle k.data = false := by
+  intro k hk htag
+  obtain ⟨toks, _, hrt, hf⟩ := sanitizeTokens_roundtrip hp (tokenize input) (tokenize_wf input)
+  unfold Policy.sanitizeCore at hk
+  rw [hrt] at hk
+  rcases mem_coalesce toks [] k hk with h | ⟨hmem, hne⟩
+  · unfold isTag at htag; rw [h.1] at htag; exact absurd htag (by decide)
+  · obtain ⟨t, _, _, hor⟩ := hf k hmem
+    rcases hor with h | ⟨_, _, _, hss⟩
+    · exact absurd h.1 hne
+    · exact hss
 
 end BM.Props
